@@ -21,10 +21,15 @@ pub fn bad_index(xs: &[i64], key: i64) -> usize {
 
 /// must NOT be reported: the same sum after a range check.
 pub fn good_add(year: i32, years: i32) -> Option<i32> {
-    if !(-300_000..=300_000).contains(&year) || years.abs() > 1_000_000 {
+    if !(-300_000..=300_000).contains(&year) || !(-1_000_000..=1_000_000).contains(&years) {
         return None;
     }
     Some(year + years)
+}
+
+/// MUST be reported: the magnitude of a caller-chosen i32 (i32::MIN has none).
+pub fn bad_abs(years: i32) -> i32 {
+    years.abs()
 }
 
 /// must NOT be reported: widened before scaling.
